@@ -317,6 +317,8 @@ func CheckC19(e *Env) int {
 		for shape := 0; shape < 4; shape++ {
 			add(c13Program(nid(), []c13Case{{ID: 1, V: v, Cross: true, Class: "reject", ResShape: shape}}), "reject", "reject", fmt.Sprintf("inaccessible-value/result-shape=%d", shape))
 		}
+		// the declaring package uses the set itself (legally) and is analysed first
+		add(c13Program(nid(), []c13Case{{ID: 1, V: v, Cross: true, Class: "reject", HomeInjector: true}}), "reject", "reject", "inaccessible-value/home-package-uses-it-too")
 	}
 	for shape := 0; shape < 4; shape++ {
 		v := vexpr{Expr: "float64(x) + 0.5", Type: "float64", Param: "x int", Local: true}
